@@ -148,7 +148,11 @@ class LetSubstitution:
     def mutations(self, node):
         if len(node) <= 2:
             return []
+        bound = [var[0] for var in node[1] if len(var) == 2]
         for var in node[1]:
+            if len(var) != 2 or any(n in bound for n in nodes.dfs(var[1])):
+                # the bound term would be captured by this binder
+                continue
             if any(n == var[0] for n in nodes.dfs(node[2])):
                 subs = nodes.substitute(node[2], {var[0]: var[1]})
                 yield Simplification({node.id: Node(node[0], node[1], subs)},
